@@ -445,6 +445,23 @@ func (p *Packer) Unpack(r io.Reader, dst string) error {
 				return fmt.Errorf("failed to evaluate path %q: %w", header.Name, err)
 			}
 			if ok, err := p.validSymlink(dst, linkPath, header.Linkname); ok {
+				// Only relative targets are supported inside a slug (see the
+				// documentation of Unpack): an absolute target is tied to
+				// the location of dst, so it is refused even if it currently
+				// points into dst, unless the caller explicitly allowed it.
+				absDst, err := filepath.Abs(dst)
+				if err != nil {
+					return fmt.Errorf("failed making path %q absolute: %w", dst, err)
+				}
+				if filepath.IsAbs(header.Linkname) && !p.allowedSymlinkTarget(absDst, filepath.Clean(header.Linkname)) {
+					return &IllegalSlugError{
+						Err: fmt.Errorf(
+							"invalid symlink (%q -> %q) has absolute target",
+							header.Name, header.Linkname,
+						),
+					}
+				}
+
 				// Create the symlink.
 				if err = os.Symlink(header.Linkname, info.Path); err != nil {
 					return fmt.Errorf("failed creating symlink (%q -> %q): %w",
@@ -550,24 +567,8 @@ func (p *Packer) validSymlink(root, path, target string) (bool, error) {
 	}
 
 	// The link target is outside of root. Check if it is allowed.
-	for _, prefix := range p.allowSymlinkTargets {
-		// Ensure prefix is absolute.
-		if !filepath.IsAbs(prefix) {
-			prefix = filepath.Join(absRoot, prefix)
-		}
-
-		// Exact match is allowed.
-		if absTarget == prefix {
-			return true, nil
-		}
-
-		// Prefix match of a directory is allowed.
-		if !strings.HasSuffix(prefix, "/") {
-			prefix += "/"
-		}
-		if strings.HasPrefix(absTarget, prefix) {
-			return true, nil
-		}
+	if p.allowedSymlinkTarget(absRoot, absTarget) {
+		return true, nil
 	}
 
 	return false, &IllegalSlugError{
@@ -576,6 +577,32 @@ func (p *Packer) validSymlink(root, path, target string) (bool, error) {
 			path, target,
 		),
 	}
+}
+
+// allowedSymlinkTarget checks whether the given absolute symlink target is
+// explicitly allowed per the Packer's config. Relative AllowSymlinkTarget
+// paths are interpreted relative to root.
+func (p *Packer) allowedSymlinkTarget(root, absTarget string) bool {
+	for _, prefix := range p.allowSymlinkTargets {
+		// Ensure prefix is absolute.
+		if !filepath.IsAbs(prefix) {
+			prefix = filepath.Join(root, prefix)
+		}
+
+		// Exact match is allowed.
+		if absTarget == prefix {
+			return true
+		}
+
+		// Prefix match of a directory is allowed.
+		if !strings.HasSuffix(prefix, "/") {
+			prefix += "/"
+		}
+		if strings.HasPrefix(absTarget, prefix) {
+			return true
+		}
+	}
+	return false
 }
 
 // checkFileMode is used to examine an os.FileMode and determine if it should
